@@ -27,7 +27,7 @@ func specCrcSteps(r uint32, k int) uint32 {
 
 // specCrcTableEntry: the table entry for a top byte — eight bit steps of byte<<24.
 func specCrcTableEntry(i uint32) uint32 {
-	return specCrcStep(specCrcStep(specCrcStep(specCrcStep(specCrcStep(specCrcStep(specCrcStep(specCrcStep(i << 24))))))))
+	return specCrcSteps(i<<24, 8)
 }
 
 // specCrc: the Ogg page checksum of the first n bytes of b — initial value 0, no
